@@ -48,6 +48,11 @@ type result struct {
 	Events     uint64           `json:"events"`
 	Case       json.RawMessage  `json:"case,omitempty"`
 	WallUs     int64            `json:"wallus"`
+	Known      []struct {
+		ID     string `json:"id"`
+		Sig    string `json:"sig"`
+		Detail string `json:"detail"`
+	} `json:"known,omitempty"`
 }
 
 type meta struct {
@@ -210,6 +215,23 @@ func outDir() string {
 	return verifDir
 }
 
+// knownEnv serialises the open findings of this property that are identified by oracle and signature alone, so
+// that the harness can step over them inside a run (findings with detail/case predicates are matched here only).
+func knownEnv() string {
+	kf := loadFindings()
+	var out []map[string]string
+	for _, f := range kf.Findings {
+		if f.Property == prop && f.SigRe != "" && f.DetailRe == "" && f.CaseRe == "" {
+			out = append(out, map[string]string{"id": f.ID, "property": f.Property, "oracle": f.Oracle, "sig_re": f.SigRe})
+		}
+	}
+	if len(out) == 0 {
+		return "VSIM_KNOWN="
+	}
+	b, _ := json.Marshal(out)
+	return "VSIM_KNOWN=" + string(b)
+}
+
 func goEnv() []string {
 	env := os.Environ()
 	env = append(env, "GOFLAGS=-mod=mod", "GOPROXY=off", "GOSUMDB=off", "GOTOOLCHAIN=local", "GONOSUMDB=*")
@@ -341,7 +363,7 @@ func workerLoop(agg *aggregate, take func() int, kf *findingsFile, deadline time
 	inf.Close()
 	inflightPath := inf.Name()
 	defer os.Remove(inflightPath)
-	cmd.Env = append(os.Environ(), "GORACE=halt_on_error=1 exitcode=66", "GOTRACEBACK=single", "VSIM_INFLIGHT="+inflightPath, "VSIM_SCRATCH="+filepath.Join(scratch, "w"))
+	cmd.Env = append(os.Environ(), "GORACE=halt_on_error=1 exitcode=66", "GOTRACEBACK=single", "VSIM_INFLIGHT="+inflightPath, "VSIM_SCRATCH="+filepath.Join(scratch, "w"), knownEnv())
 	stdin, _ := cmd.StdinPipe()
 	stdout, _ := cmd.StdoutPipe()
 	var stderr bytes.Buffer
@@ -499,7 +521,7 @@ func execCase(cs []byte) (r *result, died bool, stderrTail string) {
 	f.Close()
 	defer os.Remove(f.Name())
 	cmd := exec.Command(simbin, "exec", f.Name())
-	cmd.Env = append(os.Environ(), "GORACE=halt_on_error=1 exitcode=66", "GOTRACEBACK=single", "VSIM_SCRATCH="+filepath.Join(scratch, "w"))
+	cmd.Env = append(os.Environ(), "GORACE=halt_on_error=1 exitcode=66", "GOTRACEBACK=single", "VSIM_SCRATCH="+filepath.Join(scratch, "w"), knownEnv())
 	var stderr bytes.Buffer
 	cmd.Stderr = &stderr
 	done := make(chan struct{})
@@ -573,6 +595,11 @@ func conclude(agg *aggregate, m *meta, start time.Time) int {
 	kf := loadFindings()
 	knownSeen := map[string]int{}
 	var unknown []*result
+	for _, r := range agg.results {
+		for _, k := range r.Known {
+			knownSeen[k.ID]++
+		}
+	}
 	for _, r := range agg.violations {
 		if f := matchFinding(kf, r.Violation, r.Case); f != nil {
 			knownSeen[f.ID]++
